@@ -896,8 +896,12 @@ def pg_types(u):
                          "loop1-end": "proof { lemma_l_typerefs_step(drop.names@, it1.index@ as int); }"},
            pre="lemma_l_typerefs_empty(drop.names@);")
     simple(u, PTY, BT, "prepare_type_alter_statement", "typealter_events(*alter)", [r_dynw, r_semi, r_fmt], O + "::prepare_type_alter_statement", key="PostgresQueryBuilder::prepare_type_alter_statement")
-    simple(u, PTY, "impl PostgresQueryBuilder", "prepare_alter_type_opt", "typealteropt_events(*opt)", [r_dynw, r_label, r_semi, r_fmt], O + "::prepare_alter_type_opt_impl", key="PostgresQueryBuilder::prepare_alter_type_opt",
-           rename="prepare_alter_type_opt_impl", t0_extra=" let ghost o_ = *opt;", pre="assert(o_ == *opt);")
+    # the contract is split so that the recorded finding (RENAME TO '<literal>') cannot hide another deviation of the same function
+    u.fn(PTY, "impl PostgresQueryBuilder", "prepare_alter_type_opt", rename="prepare_alter_type_opt_impl", props=P, key="PostgresQueryBuilder::prepare_alter_type_opt", vpath=O + "::prepare_alter_type_opt_impl",
+         rules=[r_dynw, r_label, r_semi, r_fmt, r_unit_tail],
+         spec=[("ensures\n    // ADD VALUE [IF NOT EXISTS] 'v' [BEFORE | AFTER 'n'],  RENAME VALUE 'old' TO 'new'\n    !(*opt is Rename) ==> final(sql).tr() == old(sql).tr() + typealteropt_events(*opt),", P),
+               ("    // RENAME TO new_name: an IDENTIFIER in the grammar\n    *opt is Rename ==> final(sql).tr() == old(sql).tr() + typealteropt_events(*opt),", P)],
+         proofs={"body-start": "let ghost t0 = sql.tr(); let ghost o_ = *opt;", "body-end": "proof { assert(o_ == *opt); if !(o_ is Rename) { assert(sql.tr() =~= t0 + typealteropt_events(o_)); } }"})
     simple(u, PEX, BE, "prepare_extension_create_statement", "extcreate_events(*create)", [r_dynw, r_semi, r_fmt], O + "::prepare_extension_create_statement", key="PostgresQueryBuilder::prepare_extension_create_statement")
     simple(u, PEX, BE, "prepare_extension_drop_statement", "extdrop_events(*drop)", [r_dynw, r_semi, r_fmt], O + "::prepare_extension_drop_statement", key="PostgresQueryBuilder::prepare_extension_drop_statement")
     u.emit("}\n")
@@ -958,13 +962,14 @@ def column_types(u):
          rules=[r_dynw, r_w, r_bind_match,
                 make_r_sub("R-arm-out", r"format!\(\s*\"ENUM\('\{\}'\)\",\s*variants\s*\.iter\(\)\s*\.map\(\|v\| self\.escape_string\(&v\.to_string\(\)\)\)\s*\.collect::<Vec<_>>\(\)\s*\.join\(\"', '\"\)\s*,?\s*\)", "venum_text(variants)"),
                 r_format, r_into, r_idstr, r_unimpl, r_tfmt],
-         spec="""requires mysql_has(*column_type),       // the renderer is unimplemented!() for the types MySQL does not have
+         spec=[("""requires mysql_has(*column_type),       // the renderer is unimplemented!() for the types MySQL does not have
 ensures
     // a type MySQL defines for this abstract type; length / precision / scale and UNSIGNED preserved
-    exists|t: Seq<char>| final(sql).text() == old(sql).text() + t && mysql_type_ok(*column_type, t),""",
+    !(*column_type is Interval) ==> exists|t: Seq<char>| final(sql).text() == old(sql).text() + t && mysql_type_ok(*column_type, t),""", P),
+               ("    // MySQL defines no interval type (the contract is split so that this recorded finding cannot hide another deviation)\n    *column_type is Interval ==> exists|t: Seq<char>| final(sql).text() == old(sql).text() + t && mysql_type_ok(*column_type, t),", P)],
          proofs={"body-start": "let ghost t0 = sql.text(); let ghost ct_ = *column_type;\nproof { lemma_sized_lits(); }",
-                 "after#1:vtext_disp(sql, &ty_);": "let ghost tb = ty_@;\nproof { assert(mysql_base_ok(ct_, tb)); }",
-                 "body-end": "proof { let ghost t = sql.text().subrange(t0.len() as int, sql.text().len() as int); assert(sql.text() =~= t0 + t); assert(t =~= tb + unsigned_sfx(ct_)); assert(mysql_type_ok(ct_, t)); }"})
+                 "after#1:vtext_disp(sql, &ty_);": "let ghost tb = ty_@;\nproof { if !(ct_ is Interval) { assert(mysql_base_ok(ct_, tb)); } }",
+                 "body-end": "proof { let ghost t = sql.text().subrange(t0.len() as int, sql.text().len() as int); assert(sql.text() =~= t0 + t); assert(t =~= tb + unsigned_sfx(ct_)); if !(ct_ is Interval) { assert(mysql_type_ok(ct_, t)); } }"})
     u.emit("}\n")
     u.emit("pub struct PostgresTypes;\nimpl PostgresTypes {\n")
     u.fn(PT, "impl TableBuilder for PostgresQueryBuilder", "prepare_column_type", props=P, key="PostgresQueryBuilder::prepare_column_type", vpath="PostgresTypes::prepare_column_type", prefix="#[verifier::rlimit(60)]\n    ",
